@@ -330,10 +330,25 @@ def _comparator_exits(f, top):
         succ_of.update(s_ for s_ in g.blocks[b_].succs if s_ is not None)
     firsts = [b_ for b_ in rblocks if b_ not in succ_of]
     if len(firsts) != 1:
-        # the first operand's block may be entered from a block of the chain through a loop: take the one that dominates the others
-        firsts = [b_ for b_ in rblocks if all(g.dominates_block(b_, o) for o in rblocks)] if hasattr(g, "dominates_block") else firsts[:1]
+        # blocks of the chain can be separated by blocks without a condition: take the block every other one is reached through
+        def reach_avoiding(avoid, target):
+            seen_, todo = set(), [g.entry]
+            while todo:
+                x = todo.pop()
+                if x == avoid or x in seen_:
+                    continue
+                if x == target:
+                    return True
+                seen_.add(x)
+                todo.extend(s_ for s_ in g.blocks[x].succs if s_ is not None)
+            return False
+        firsts = [b_ for b_ in rblocks if all(o == b_ or not reach_avoiding(b_, o) for o in rblocks)]
         if not firsts:
             return None
+    loads = {n.id for n in f.walk() if (n.k == "BinaryOperator" and n.op == "=" or n.k == "VarDecl") and any(
+        x.k == "ArraySubscriptExpr" and "p_msgs" in X.show(x.children[0]) for x in n.walk())}
+    rets = {n.id for n in f.walk() if n.k == "ReturnStmt"}
+    goal_elems = loads | rets
     exits = {True: set(), False: set()}
     seen = set()
     work = [(firsts[0], ())]
@@ -346,14 +361,15 @@ def _comparator_exits(f, top):
         fd = dict(facts)
         if not related(B):
             v = eval3(top, fd)
-            if v is not None:
-                exits[v].add(b_)
-                continue
-            if B.cond is not None and len(B.raw_succs) == 2:
-                # left the expression without the comparator having a value: it was short-circuited on this path
-                continue
-            for s_ in B.succs:
-                if s_ is not None and not B.abort:
+            decides = B.cond is not None and len(B.raw_succs) == 2
+            marks = any(e.id in goal_elems for e in B.elems) or not [s_ for s_ in B.succs if s_ is not None] or B.abort
+            if decides or marks:
+                # the first block after the expression that does something: this is where control went
+                if v is not None:
+                    exits[v].add(b_)
+                continue        # (v unknown: the comparator was short-circuited on this path)
+            for s_ in B.succs:  # a block that only evaluates operands or joins: still inside the expression
+                if s_ is not None:
                     work.append((s_, facts))
             continue
         core, neg = X.strip_bool(B.cond)
@@ -368,9 +384,6 @@ def _comparator_exits(f, top):
             work.append((s_, tuple(sorted(f2.items()))))
     if not exits[True] or not exits[False]:
         return None
-    loads = {n.id for n in f.walk() if (n.k == "BinaryOperator" and n.op == "=" or n.k == "VarDecl") and any(
-        x.k == "ArraySubscriptExpr" and "p_msgs" in X.show(x.children[0]) for x in n.walk())}
-    rets = {n.id for n in f.walk() if n.k == "ReturnStmt"}
     early = {n.id for n in f.walk() if n.k == "ReturnStmt" and n.children and X.const_int(n.children[0]) == 0}
     late = rets - early
     if not loads or not late:
